@@ -10,7 +10,7 @@ NA = {
  "C04":"the exported span is a deterministic function of one sequential call sequence and six limits; nothing to schedule or fault (the concurrent face of the same object is C10)",
  "C05":"attribute-set construction, equality, filtering and encoding are pure, allocation-local computations",
  "C07":"bucket placement and rescaling are a pure function of the measurement sequence and aggregation parameters",
- "C09":"sampling decisions are a pure function of (trace ID, ratio, parent context, sampler); ID uniqueness could only fail through a data race inside math/rand, which a serialising simulator cannot exhibit",
+ "C09":"sampling decisions are a pure function of (trace ID, ratio, parent context, sampler) and the property quantifies over inputs, configurations and programs, not over schedules, clocks or faults; its only concurrent element, uniqueness of randomly generated IDs, could fail only through a data race in the ID generator, which is incidentally within reach of the race-detector build of the C10 engine (concurrent child Start) but is not a check of C09",
  "C11":"baggage parsing, serialisation and copy-on-write edits are pure value computations",
  "C13":"OTLP/Zipkin encoding is a pure transform of in-memory telemetry to protobuf/JSON",
  "C17":"log-record attribute limits are a deterministic function of one sequential edit sequence (clone isolation under concurrency is exercised by C06)",
